@@ -233,3 +233,50 @@ func vpH_C05_retry() {
 	vpCover(byRelay && !withdrawBeforeRetry && observed, "relay-only interest announced by a retry")
 	vpCover(withdrawBeforeRetry, "withdrawn before the retry")
 }
+
+// stream_churn: the node's view of who is in a topic across the death of ONE stream direction of a peer that announced
+// interest: the peer's announcements arrive on ITS stream to us (inbound); they stay valid while that stream is open. When
+// only OUR stream to the peer (outbound) dies and the connection stays up - a transient reset - the writer is respawned and
+// the peer, which never learns of the reset and so never re-announces, must stay listed; when the peer's inbound stream
+// closes, or the connection is gone, it is unlisted. Router under test symbolic among floodsub / gossipsub.
+func vpStreamChurn(router string) {
+	nd := vpNewNode("self", vpNodeCfg{router: router})
+	ps := nd.ps
+	proto := FloodSubID
+	if router == "gossipsub" {
+		proto = GossipSubID_v11
+	}
+	nd.vpAddPeer("x", proto, vpBool("x_outbound"))
+	nd.vpAddPeer("y", proto, true)
+	ps.handleIncomingRPC(vpSubRPC("x", vpT0, true))
+	if vpBool("y_in_topic") {
+		ps.handleIncomingRPC(vpSubRPC("y", vpT0, true))
+	}
+	_, listed0 := ps.topics[vpT0]["x"]
+	vpAssert(listed0, "a peer that announced interest is listed")
+	stillConnected := vpBool("connection_stays_up")
+	what := vpInt("what_dies", 0, 1)
+	switch what {
+	case 0: // our outbound stream to x dies
+		nd.h.net.connected["x"] = stillConnected
+		ps.peerDeadPend["x"] = struct{}{}
+		ps.handleDeadPeers()
+		vpDropPending()
+	case 1: // x's stream to us closes
+		ps.onClosedIncomingStream("x", proto)
+	}
+	_, listed := ps.topics[vpT0]["x"]
+	if what == 0 && stillConnected {
+		vpAssert(listed, "a transient reset of OUR stream to a peer that stays connected does not unlist the peer: its interest was announced on its own stream, which is still open, and it will not announce it again")
+	} else {
+		vpAssert(!listed, "a peer whose announcing stream closed, or that disconnected, is no longer listed")
+	}
+	_, ylisted := ps.topics[vpT0]["y"]
+	_, yq := ps.peers["y"]
+	vpAssert(yq, "other peers keep their queues")
+	_ = ylisted
+	vpCover(what == 0 && stillConnected && listed, "transient outbound reset, peer stays listed")
+	vpCover(what == 0 && !stillConnected, "disconnect")
+}
+func vpH_C05_stream_churn_fs() { vpStreamChurn("floodsub") }
+func vpH_C05_stream_churn_gs() { vpStreamChurn("gossipsub") }
